@@ -291,4 +291,330 @@ theorem words_lower_fixed (lb : List Char) (hl : lower lb = lb) : (splitOn ' ' l
   rw [← splitOn_lower, hl]
 
 
+/-! ## comma-separated layers -/
+
+
+def NoComma (seg : List Tok) : Prop := ∀ t ∈ seg, isComma t = false
+
+theorem isComma_iff (t : Tok) : isComma t = (t.tt == .comma) := rfl
+
+theorem splitC_spec (vs : List Tok) :
+    splitCommas vs = (splitC vs).1 :: (splitC vs).2.map (·.2) := by
+  induction vs with
+  | nil => rfl
+  | cons t r ih =>
+    simp only [splitCommas, splitC]
+    rw [ih]
+    simp only [isComma_iff]
+    by_cases h : (t.tt == TT.comma) = true
+    · simp [h]
+    · simp [h]
+
+theorem splitC_noComma (vs : List Tok) :
+    NoComma (splitC vs).1 ∧ ∀ p ∈ (splitC vs).2, isComma p.1 = true ∧ NoComma p.2 := by
+  induction vs with
+  | nil => simp [splitC, NoComma]
+  | cons t r ih =>
+    simp only [splitC]
+    by_cases hc : isComma t = true
+    · simp only [hc, if_true]
+      refine ⟨by simp [NoComma], ?_⟩
+      intro p hp
+      rcases List.mem_cons.mp hp with e | e
+      · subst e; exact ⟨hc, ih.1⟩
+      · exact ih.2 p e
+    · have hc' : isComma t = false := by simpa using hc
+      simp only [hc', Bool.false_eq_true, if_false]
+      refine ⟨?_, ih.2⟩
+      intro x hx
+      rcases List.mem_cons.mp hx with e | e
+      · subst e; exact hc'
+      · exact ih.1 x e
+
+theorem splitC_append_noComma (s : List Tok) (hs : NoComma s) (r : List Tok) :
+    splitC (s ++ r) = (s ++ (splitC r).1, (splitC r).2) := by
+  induction s with
+  | nil => simp
+  | cons t s ih =>
+    have ht : isComma t = false := hs t List.mem_cons_self
+    have hs' : NoComma s := fun x hx => hs x (List.mem_cons_of_mem _ hx)
+    simp only [List.cons_append, splitC, ih hs', ht, Bool.false_eq_true, if_false]
+
+theorem splitC_joinC (s : List Tok) (rest : List (Tok × List Tok)) (hs : NoComma s)
+    (hr : ∀ p ∈ rest, isComma p.1 = true ∧ NoComma p.2) : splitC (joinC (s, rest)) = (s, rest) := by
+  induction rest generalizing s with
+  | nil =>
+    have := splitC_append_noComma s hs []
+    simpa [joinC, splitC] using this
+  | cons p rest ih =>
+    obtain ⟨c, seg⟩ := p
+    have hp := hr (c, seg) List.mem_cons_self
+    have hrest : ∀ p ∈ rest, isComma p.1 = true ∧ NoComma p.2 := fun p hp => hr p (List.mem_cons_of_mem _ hp)
+    have := ih seg hp.2 hrest
+    simp only [joinC, List.flatMap_cons] at this ⊢
+    rw [splitC_append_noComma s hs]
+    simp only [List.cons_append, splitC, this, hp.1, if_true, List.append_nil]
+
+/-- layers of `mapSeg f vs` = `f` applied to the non-empty layers of `vs`, provided `f` creates no comma -/
+theorem mapSeg_layers (f : List Tok → List Tok) (hf : ∀ seg, NoComma seg → NoComma (f seg)) (vs : List Tok) :
+    splitCommas (mapSeg f vs) = (splitCommas vs).map (onLayer f) := by
+  have h := splitC_noComma vs
+  have hon : ∀ seg, NoComma seg → NoComma (onLayer f seg) := by
+    intro seg hs
+    unfold onLayer
+    split
+    · simp [NoComma]
+    · exact hf seg hs
+  rw [splitC_spec, splitC_spec vs]
+  unfold mapSeg
+  rw [splitC_joinC]
+  · simp [List.map_map, Function.comp_def]
+  · exact hon _ h.1
+  · intro p hp
+    obtain ⟨q, hq, rfl⟩ := List.mem_map.mp hp
+    exact ⟨(h.2 q hq).1, hon _ (h.2 q hq).2⟩
+
+theorem layers_congr {α : Type} (d : List Tok → α) (f : List Tok → List Tok)
+    (hf : ∀ seg, NoComma seg → NoComma (f seg)) (vs : List Tok)
+    (h : ∀ seg ∈ splitCommas vs, d (onLayer f seg) = d seg) :
+    (splitCommas (mapSeg f vs)).map d = (splitCommas vs).map d := by
+  rw [mapSeg_layers f hf, List.map_map]
+  exact List.map_congr_left h
+
+theorem noComma_sub (a b : List Tok) (h : ∀ t ∈ a, t ∈ b) (hb : NoComma b) : NoComma a :=
+  fun t ht => hb t (h t ht)
+
+theorem bgSizeSeg_noComma (seg : List Tok) (h : NoComma seg) : NoComma (bgSizeSeg seg) := by
+  unfold bgSizeSeg
+  split
+  · split
+    · exact noComma_sub _ _ (by intro t ht; simp at ht; subst ht; simp) h
+    · exact h
+  · exact h
+
+theorem bgSize_layer (seg : List Tok) : bgSize (onLayer bgSizeSeg seg) = bgSize seg := by
+  unfold onLayer
+  split
+  · rename_i h; simp at h; subst h; rfl
+  · unfold bgSizeSeg
+    split
+    · rename_i x0 a b hne0
+      split
+      · rename_i hb
+        have hb' : identOf b = S "auto" := by simpa using hb
+        obtain ⟨h1, h2⟩ := identOf_eq b _ (by decide) hb'
+        have hbt : (b.tt == TT.ident) = true := by simp [h1]
+        simp only [bgSize, List.map_cons, List.map_nil, hbt, if_true, h2]
+        rfl
+      · rfl
+    · rfl
+
+theorem bgRepeatSeg_noComma (seg : List Tok) (h : NoComma seg) : NoComma (bgRepeatSeg seg) := by
+  unfold bgRepeatSeg
+  split
+  · rename_i a b
+    have ha : isComma a = false := h a (by simp)
+    split
+    · split
+      · exact noComma_sub _ _ (by intro t ht; simp at ht; subst ht; simp) h
+      · split
+        · intro t ht; simp at ht; subst ht; rfl
+        · split
+          · intro t ht; simp at ht; subst ht; rfl
+          · exact h
+    · exact h
+  · exact h
+
+theorem kwOf_of_ident (t : Tok) (k : List Char) (h1 : t.tt = .ident) (h2 : lower t.data = k) : kwOf t = some k := by
+  simp [kwOf, h1, h2]
+
+theorem repeat_not_xy : ∀ k ∈ repeatKeywords, (k == "repeat-x".toList) = false ∧ (k == "repeat-y".toList) = false ∧ known k = k := by
+  decide
+
+theorem bgRepeat_single (a : Tok) (k : List Char) (hk : kwOf a = some k) (hin : repeatKeywords.contains k = true) :
+    bgRepeat [a] = some (k, k) := by
+  obtain ⟨hx, hy, _⟩ := repeat_not_xy k (by simpa using hin)
+  simp only [bgRepeat, hk, hx, hy, hin, Bool.false_eq_true, if_false, if_true]
+
+theorem bgRepeat_pair (a b : Tok) (x y : List Char) (hx : kwOf a = some x) (hy : kwOf b = some y) :
+    bgRepeat [a, b] = if repeatKeywords.contains x && repeatKeywords.contains y then some (x, y) else none := by
+  simp only [bgRepeat, hx, hy]
+
+theorem bgRepeat_x (args : List Tok) : bgRepeat [Tok.mk .ident (S "repeat-x") args] = some (S "repeat", S "no-repeat") := by
+  simp only [bgRepeat, kwOf, Tok.tt, Tok.data]; rfl
+theorem bgRepeat_y (args : List Tok) : bgRepeat [Tok.mk .ident (S "repeat-y") args] = some (S "no-repeat", S "repeat") := by
+  simp only [bgRepeat, kwOf, Tok.tt, Tok.data]; rfl
+
+theorem bgRepeat_layer (seg : List Tok) (d : List Char × List Char) (hv : bgRepeat seg = some d) :
+    bgRepeat (onLayer bgRepeatSeg seg) = some d := by
+  unfold onLayer
+  split
+  · rename_i h; simp at h; subst h; exact hv
+  · unfold bgRepeatSeg
+    split
+    · rename_i x0 a b hne0
+      split
+      · rename_i hid
+        simp only [Bool.and_eq_true, beq_iff_eq] at hid
+        have ka := kwOf_of_ident a _ hid.1 rfl
+        have kb := kwOf_of_ident b _ hid.2 rfl
+        rw [bgRepeat_pair a b _ _ ka kb] at hv
+        split at hv
+        · rename_i hin
+          simp only [Bool.and_eq_true] at hin
+          have hd := (Option.some.inj hv).symm
+          subst hd
+          have ia : identOf a = known (lower a.data) := by simp [identOf, hid.1]
+          have ib : identOf b = known (lower b.data) := by simp [identOf, hid.2]
+          have e1 := (repeat_not_xy _ (by simpa using hin.1)).2.2
+          have e2 := (repeat_not_xy _ (by simpa using hin.2)).2.2
+          split
+          · -- equal hashes: both are repeat keywords the hash table knows, so the lexemes agree
+            rename_i he
+            have he' : identOf a = identOf b := by simpa using he
+            rw [ia, ib, e1, e2] at he'
+            rw [bgRepeat_single a _ ka hin.1, he']
+          · split
+            · rename_i hrn
+              simp only [Bool.and_eq_true, beq_iff_eq] at hrn
+              obtain ⟨_, ea⟩ := identOf_eq a _ (by decide) hrn.1
+              obtain ⟨_, eb⟩ := identOf_eq b _ (by decide) hrn.2
+              rw [ea, eb, bgRepeat_x]
+            · split
+              · rename_i hnr
+                simp only [Bool.and_eq_true, beq_iff_eq] at hnr
+                obtain ⟨_, ea⟩ := identOf_eq a _ (by decide) hnr.1
+                obtain ⟨_, eb⟩ := identOf_eq b _ (by decide) hnr.2
+                rw [ea, eb, bgRepeat_y]
+              · rw [bgRepeat_pair a b _ _ ka kb, hin.1, hin.2]; rfl
+        · exact absurd hv (by simp)
+      · exact hv
+    · exact hv
+
+
+/-! ## flex -/
+
+
+/-- `Token.IsZero` is sound on a token: a numeric lexeme that starts with `0` denotes zero (output shape of the
+    number minifier, C08.5, plus the lexer's number/unit split — a contract) -/
+def ZeroSound (t : Tok) : Prop := isZero t = true → ∃ n, numOf t = some n ∧ n.isZero = true
+
+theorem isZero_tt (t : Tok) (h : isZero t = true) : t.tt = .dimension ∨ t.tt = .percentage ∨ t.tt = .number := by
+  simp only [isZero, Bool.and_eq_true, Bool.or_eq_true, beq_iff_eq] at h
+  rcases h.1 with (h1 | h1) | h1
+  · exact Or.inl h1
+  · exact Or.inr (Or.inl h1)
+  · exact Or.inr (Or.inr h1)
+
+theorem isKw_false (t : Tok) (s : String) (h : t.tt ≠ .ident) : isKw t s = false := by
+  simp [isKw, kwOf, h]
+
+theorem basisOf_zero (b : Tok) (hz : ZeroSound b) (h : isZero b = true) : basisOf b = some .zero := by
+  obtain ⟨n, hn, hn0⟩ := hz h
+  have htt := isZero_tt b h
+  have hni : b.tt ≠ .ident := by rcases htt with e | e | e <;> simp [e]
+  have hnf : (b.tt == TT.function) = false := by rcases htt with e | e | e <;> simp [e]
+  simp only [basisOf, isKw_false b _ hni, Bool.false_eq_true, if_false, hnf, hn]
+  cases n with
+  | number q => simp only [Num.isZero] at hn0; simp [hn0]
+  | percentage q => simp only [Num.isZero] at hn0; simp [hn0]
+  | dimension q u => simp only [Num.isZero] at hn0; simp [hn0]
+
+theorem numVal0 : numVal ['0'] = some 0 := by decide +kernel
+theorem numVal1 : numVal ['1'] = some 1 := by decide +kernel
+
+theorem flexNum_number (a : Tok) (h : a.tt = .number) : flexNum a = numVal a.data := by
+  simp [flexNum, h]
+theorem flexNum_other (a : Tok) (h : a.tt ≠ .number) : flexNum a = none := by
+  simp [flexNum, h]
+
+theorem flexTriple_single (a : Tok) (g : Rat) (h : a.tt = .number) (hg : numVal a.data = some g) :
+    flexTriple [a] = some (g, 1, Basis.zero) := by
+  have hni : a.tt ≠ .ident := by simp [h]
+  simp only [flexTriple, isKw_false a _ hni, Bool.false_eq_true, if_false, flexNum_number a h, hg]
+
+theorem flexTriple_kw (s : String) (args : List Tok) :
+    flexTriple [Tok.mk .ident s.toList args] =
+      (if lower s.toList == "none".toList then some (0, 0, Basis.auto)
+       else if lower s.toList == "auto".toList then some (1, 1, Basis.auto)
+       else if lower s.toList == "initial".toList then some (0, 1, Basis.auto)
+       else flexTriple [Tok.mk .ident s.toList args]) := by
+  simp only [flexTriple, isKw, kwOf, Tok.tt, Tok.data, beq_self_eq_true, if_true]
+  split
+  · rename_i h; simp at h; simp [h]
+  · rename_i h1
+    split
+    · rename_i h; simp at h; simp [h]
+    · rename_i h2
+      split
+      · rename_i h; simp at h; simp [h]
+      · rename_i h3
+        simp at h1 h2 h3
+        simp [h1, h2, h3]
+
+
+/-! ## line shorthands -/
+
+
+theorem filter_map_filter {α β : Type} (f : α → β) (keep : α → Bool) (P : β → Bool) (l : List α)
+    (h : ∀ x ∈ l, keep x = false → P (f x) = false) :
+    ((l.filter keep).map f).filter P = (l.map f).filter P := by
+  induction l with
+  | nil => rfl
+  | cons a r ih =>
+    have ih' := ih (fun x hx => h x (List.mem_cons_of_mem _ hx))
+    by_cases hk : keep a = true
+    · simp only [List.filter_cons, hk, if_true, List.map_cons]
+      split <;> simp [ih']
+    · have hk' : keep a = false := by simpa using hk
+      have := h a List.mem_cons_self hk'
+      simp only [List.filter_cons, hk', Bool.false_eq_true, if_false, List.map_cons, this, ih']
+
+/-- whole-table check: in each shorthand every dropped keyword is the initial value of the component it sets,
+    and a lone `none` sets every component to its initial value -/
+theorem drop_table_ok : ∀ p ∈ lineDropTable,
+    (∀ k ∈ p.2, k ≠ [] ∧ slotInitial p.1 (slotOf p.1 (Tok.mk .ident k [])) = Tok.mk .ident k []) ∧
+    (∀ s ∈ [Slot.width, .style, .color, .line], slotVal p.1 [tIdent (S "none")] s = [slotInitial p.1 s]) := by
+  decide +kernel
+
+theorem lowerIdent_of_ident (t : Tok) (k : List Char) (h1 : t.tt = .ident) (h2 : lower t.data = k) :
+    lowerIdent t = Tok.mk .ident k [] := by
+  simp [lowerIdent, h1, h2]
+
+theorem slotVal_drop (prop : List Char) (kws : List (List Char)) (hp : (prop, kws) ∈ lineDropTable)
+    (vs : List Tok) (s : Slot) (hs : s ∈ [Slot.width, .style, .color, .line]) :
+    slotVal prop (dropOnly kws vs) s = slotVal prop vs s := by
+  obtain ⟨hk, hnone⟩ := drop_table_ok _ hp
+  simp only at hk hnone
+  -- the tokens that are dropped do not contribute to any component
+  have hdrop : ∀ x ∈ vs, (!kws.contains (identOf x)) = false →
+      (slotOf prop (lowerIdent x) == s && lowerIdent x != slotInitial prop s) = false := by
+    intro x _ hx
+    have hx' : identOf x ∈ kws := by simpa using hx
+    obtain ⟨hne, hinit⟩ := hk _ hx'
+    obtain ⟨h1, h2⟩ := identOf_eq x _ hne rfl
+    rw [lowerIdent_of_ident x _ h1 h2]
+    by_cases hsl : slotOf prop (Tok.mk .ident (identOf x) []) = s
+    · subst hsl
+      rw [hinit]
+      simp
+    · have : (slotOf prop (Tok.mk .ident (identOf x) []) == s) = false := by simpa using hsl
+      simp [this]
+  have hfil := filter_map_filter lowerIdent (fun t => !kws.contains (identOf t))
+    (fun t => slotOf prop t == s && t != slotInitial prop s) vs hdrop
+  unfold dropOnly
+  simp only
+  split
+  · -- everything was dropped
+    rename_i hemp
+    have hemp' : vs.filter (fun t => !kws.contains (identOf t)) = [] := by simpa using hemp
+    rw [hnone s hs]
+    simp only [slotVal]
+    rw [← hfil, hemp']
+    rfl
+  · simp only [slotVal]
+    rw [hfil]
+
+theorem minifyColor_none : minifyColor (tIdent (S "none")) = tIdent (S "none") := by decide
+
 end Verif.Proofs.Css
